@@ -131,24 +131,37 @@ RULE = ('DFT: itertools enumeration of the finite configuration space, input '
         '2 / odd size / axes subset / adjoint configuration; distinct by '
         'sha1 of the case descriptor')
 EXHAUSTIVE = {
-    'quick': ['plain DFT: 1-D sizes {1,2,3,4,5,8}; 2-D shapes over '
-              '{1,2,3,4,5,8} with product <= 25; x all ordered non-empty axes '
-              'subsets x halfcomplex x sign x {float32,float64,complex64,'
-              'complex128} x {numpy,pyfftw} x {oop,out,alias(complex only)}',
+    'quick': ['plain DFT, every configuration as a forward case (values, '
+              'two calls, input preservation, back-end difference) and as an '
+              'inverse case (op.inverse, directly built inverse of the same '
+              'back-end, round trip): 1-D sizes {1,2,3,4,5,8}; 2-D shapes '
+              'over {1,2,3,4,5,8} with product <= 25; x all ordered non-empty '
+              'axes subsets x halfcomplex x sign x {float32,float64,'
+              'complex64,complex128} x {numpy,pyfftw} x {out-of-place, out=} '
+              '(+ aliased out=x for complex domains)',
               'plain DFT 3-D: shapes over {2,3,4} with product <= 24 plus '
               '(1,3,4),(3,1,2),(2,5,2),(5,2,3): all ordered axes subsets x '
-              'halfcomplex x sign x {float64,complex128} x impl x {out}',
-              'negative axes encodings: every (shape, axes) above once with '
-              'all-negative axes, float64/complex128, out-of-place',
+              'halfcomplex x sign x {float64,complex128} x impl, out=',
+              'negative axes encodings: every (shape, ordered axes) above '
+              'with all-negative axes x halfcomplex x sign x '
+              '{float64,complex128}, back-end and forward/inverse part '
+              'alternating',
               'reciprocal grids: 1-D sizes 2..9 and 2-D shapes over {2,3,4,5} '
-              'x axes x shift patterns x halfcomplex'],
-    'thorough': ['plain DFT: all shapes of 1-3 axes over {1,2,3,4,5,8} with '
-                 'product <= 64 (1-D, 2-D) / <= 40 (3-D) x all ordered '
+              'x axes (None and every ordered subset) x shift patterns '
+              '(scalar and mixed lists) x halfcomplex'],
+    'thorough': ['plain DFT (forward and inverse case per configuration): '
+                 'all shapes of 1-2 axes over {1,2,3,4,5,8} x all ordered '
                  'non-empty axes subsets x halfcomplex x sign x four dtypes x '
-                 '{numpy,pyfftw} x {oop,out,alias(complex only)}',
-                 'negative axes encodings: every (shape, axes) once with '
+                 '{numpy,pyfftw} x {out-of-place, out=} (+ aliased out=x for '
+                 'complex domains)',
+                 'plain DFT 3-D: all shapes over {1,2,3,4,5,8} with product '
+                 '<= 40 x all 15 ordered axes subsets x halfcomplex x sign x '
+                 'four dtypes x impl with out= (all call styles for the '
+                 'shapes without a length-1 axis and product <= 16)',
+                 'negative axes encodings: every (shape, ordered axes) with '
                  'all-negative axes x halfcomplex x sign x '
-                 '{float64,complex128} x impl, out-of-place',
+                 '{float64,complex128} (x impl x forward/inverse for 1-D, 2-D '
+                 'and the small 3-D shapes, alternating otherwise)',
                  'reciprocal grids: 1-D sizes 2..9, 2-D shapes over '
                  '{1,2,3,4,5,8}, 3-D over {2,3} x axes x shift patterns x '
                  'halfcomplex'],
@@ -178,6 +191,11 @@ def _known_patterns():
 
 
 class Fails(list):
+    """Failed clauses of one case.  `finish` raises the first one that is
+    not a recorded finding (so a fresh failure is never hidden behind a
+    recorded one), else the first."""
+    info = ''
+
     def add(self, sig, detail=''):
         self.append((sig, str(detail)[:600]))
 
@@ -187,8 +205,8 @@ class Fails(list):
         pats = _known_patterns()
         for sig, det in self:
             if not any(fnmatch.fnmatchcase(sig, p) for p in pats):
-                raise Violation(sig, det)
-        raise Violation(*self[0])
+                raise Violation(sig, det + self.info)
+        raise Violation(self[0][0], self[0][1] + self.info)
 
 
 def _where(exc):
@@ -305,9 +323,10 @@ DFT_CELL = [0.5, 1.0, 0.25]
 
 
 def _dft_region(real, hc, sign, impl, naxes, *extra):
+    """Root-cause region of a plain-DFT failure (the sign, the dtype width
+    and the shape go into the detail text, not into the signature)."""
     toks = ['dom=' + ('real' if real else 'complex'), 'hc=%d' % bool(hc),
-            'sign=' + sign, 'impl=' + impl,
-            'naxes=' + ('1' if naxes == 1 else 'n')]
+            'impl=' + impl, 'naxes=' + ('1' if naxes == 1 else 'n')]
     return ','.join(toks + [e for e in extra if e])
 
 
@@ -358,6 +377,8 @@ def _run_dft(desc):
     naxes = len(axes)
     eps = _eps(dtype)
     fails = Fails()
+    fails.info = ' [{} shape={} axes={} sign={} halfcomplex={} style={}]'.format(
+        dtype.name, shape, axes_arg, sign, hc, style)
     if style == 'alias' and (real or hc):
         raise HarnessError('alias style needs a complex full transform')
 
@@ -461,7 +482,9 @@ def _run_dft(desc):
         if _maxerr(ref_np, ref_d) > 32 * _eps('float64') * logn * max(
                 1.0, float(np.linalg.norm(x.ravel()))):
             raise HarnessError('numpy.fft and dense DFT disagree')
-        reg = region + ',style={},call={}'.format(style, call)
+        reg = region + ',style={},call={}'.format(
+            'alias' if style == 'alias' else 'plain',
+            'first' if call == 1 else 'later')
         ok, y, xe = _dft_call(op, dom, x, style)
         if not ok:
             if isinstance(y, HarnessError):
@@ -513,12 +536,10 @@ def _run_dft(desc):
     inv_sign = '+' if sign == '-' else '-'
     yref = np.asarray(R.dense_dft(x1, axes, sign, eff_hc)).astype(cdt)
     tol_i = 64 * eps * logn * float(np.linalg.norm(x1.ravel())) + 1e-300
-    last2 = 'lastlen=' + ('2' if shape[axes[-1]] == 2 else 'other')
     lastpar = 'lastodd' if shape[axes[-1]] % 2 else 'lasteven'
 
     def check_inverse(inv, via, inv_impl, inv_style):
-        reg = region + ',via={},invimpl={},{},{}'.format(
-            via, inv_impl, last2, lastpar)
+        reg = region + ',via={},invimpl={},{}'.format(via, inv_impl, lastpar)
         if inv.domain != op.range or inv.range != op.domain:
             fails.add('C18|dft-inverse-spaces|DiscreteFourierTransformInverse|'
                       + reg, 'inverse maps {!r} -> {!r}'.format(
@@ -573,7 +594,7 @@ def _run_dft(desc):
                     err = _maxerr(r.asarray(), x1)
                     if not err <= 2 * tol_i:
                         fails.add('C18|dft-roundtrip|DiscreteFourierTransform|'
-                                  + region + ',' + last2,
+                                  + region,
                                   'inverse(dft(x)) differs from x by {:.3g} > '
                                   '{:.3g}'.format(err, 2 * tol_i))
         ikw = dict(domain=op.range, axes=_axes_kw(axes_arg), sign=inv_sign,
@@ -612,14 +633,9 @@ def _shift_list(shift_arg, naxes):
 
 
 def _ft_region(real, eff_hc, sign, impl, shifts, *extra):
-    if all(shifts):
-        sh = 'shift=all'
-    elif not any(shifts):
-        sh = 'shift=none,unshifted'
-    else:
-        sh = 'shift=mixed,unshifted'
+    sh = 'shift=all' if all(shifts) else 'unshifted'
     toks = ['dom=' + ('real' if real else 'complex'), 'hc=%d' % bool(eff_hc),
-            'sign=' + sign, 'impl=' + impl, sh]
+            'impl=' + impl, sh]
     return ','.join(toks + [e for e in extra if e])
 
 
@@ -655,6 +671,10 @@ def _run_ft(desc):
                               desc['tmp'])
     exponent = float(desc.get('exponent', 2.0))
     fails = Fails()
+    fails.info = (' [{} shape={} axes={} shift={} sign={} halfcomplex={} '
+                  'style={} tmp={} domain={}..{}]'.format(
+                      dtype.name, shape, axes_arg, desc['shift'], sign,
+                      hc_arg, style, tmp, desc['min'], desc['max']))
     region = _ft_region(real, eff_hc, sign, impl, shifts)
     tsizes = [shape[a] for a in axes]
     len1_t = any(n == 1 for n in tsizes)
@@ -766,7 +786,7 @@ def _run_ft(desc):
                     t[...] = np.nan
         tol, rel = _ft_tol(eps, shape, axes, x0, stride, coords,
                            float(np.linalg.norm(x.ravel())))
-        reg = region + ',style={},tmp={},call={}'.format(style, tmp, call)
+        reg = region
         ok, y, xe = _dft_call(op, dom, x, style)
         if not ok:
             if isinstance(y, HarnessError):
@@ -838,7 +858,7 @@ def _run_ft(desc):
                     ok, r = _try(inv, ye, out=out)
                 else:
                     ok, r = _try(inv, ye)
-                reg = region + ',tmp={},input={}'.format(tmp, name)
+                reg = region
                 if not ok:
                     fails.add('C18|ft-inverse-crash|{}|{}'.format(
                         type(r).__name__, reg), _exc(r))
@@ -911,7 +931,7 @@ def _run_gauss(desc):
     eff_hc = real and bool(hc_arg)
     levels = int(desc.get('levels', 3))
     eps = _eps(dtype)
-    region = _ft_region(real, eff_hc, sign, impl, shifts, 'ndim=%d' % d)
+    region = _ft_region(real, eff_hc, sign, impl, shifts)
     errs, strides = [], []
     for lev in range(levels):
         shape = [int(n) * 2 ** lev for n in desc['n0']]
@@ -1094,11 +1114,14 @@ def _run_wav(desc):
         pywt.dwtn_max_level(shape, wav, axes)
     tsizes = [shape[a] for a in axes]
     family = wav.short_family_name
-    region = 'family={},mode={},levels={},naxes={}of{},{}'.format(
-        family, mode, 'default' if nlev_arg is None else
-        ('1' if level == 1 else 'n'), len(axes), nd,
-        'odd' if any(n % 2 for n in tsizes) else 'even')
+    region = '{},{},{}'.format(
+        'orthogonal' if wav.orthogonal else 'biorthogonal',
+        'odd' if any(n % 2 for n in tsizes) else 'even',
+        'axes-subset' if len(axes) < nd else 'all-axes')
+    info = ' [{} {} nlevels={} shape={} axes={}]'.format(
+        wname, mode, nlev_arg, shape, axes_arg)
     fails = Fails()
+    fails.info = info
     strata = ['wav', 'wav:family=' + family, 'wav:mode=' + mode,
               'wav:dtype=' + dtype.name, 'wav:ndim=%d' % nd,
               'wav:naxes=%d' % len(axes),
@@ -1226,7 +1249,7 @@ def _run_wav(desc):
             n, shape, 'float64')
         delta = float(np.max(np.abs(M.T @ M - np.eye(n))))
         tol = 64 * eps * n + 4 * delta
-        areg = region + ',orthogonal,exact-config'
+        areg = region + ',exact-config'
         okd, res = _try(flat.adjoint_defect, W, adj)
         if not okd:
             fails.add('C18|wav-adjoint-crash|{}|{}'.format(
@@ -1450,7 +1473,8 @@ def _ft_case(draw):
     real = dtype.startswith('f')
     axes = draw(_axes_descs(nd, shape=shape, min_size=2))
     ax = R.norm_axes(axes, nd)
-    sk = draw(st.sampled_from(['true', 'false', 'list', 'list', 'default']))
+    sk = draw(st.sampled_from(['true', 'false', 'list', 'list', 'list',
+                               'default']))
     if sk in ('true', 'default'):
         shift = True
     elif sk == 'false':
@@ -1510,8 +1534,11 @@ def _gauss_case(draw, tier):
         hc = draw(st.booleans())
         sign = '-' if hc else draw(st.sampled_from('-+'))
     else:
-        shift = draw(st.sampled_from([True, False]) | st.lists(
-            st.booleans(), min_size=d, max_size=d))
+        shift = draw(st.sampled_from([True, False, 'mixed']))
+        if shift == 'mixed':
+            first = draw(st.booleans())
+            shift = [bool((i % 2) ^ first) for i in range(d)] if d > 1 \
+                else first
         hc = False
         sign = draw(st.sampled_from('-+'))
     return {'kind': 'gauss', 'ndim': d, 'width': a, 'dtype': dtype,
